@@ -454,3 +454,20 @@ func DrawColliding(t *rapid.T, md protoreflect.MessageDescriptor, a *model.Msg, 
 	}
 	return b
 }
+
+// ConstrainedJSON lists the well-known types whose JSON/text forms accept only part of the
+// values their fields can hold (ranges, resolvable URLs, reversible paths, finite numbers).
+var ConstrainedJSON = map[protoreflect.FullName]bool{
+	"google.protobuf.Any": true, "google.protobuf.FieldMask": true, "google.protobuf.Timestamp": true,
+	"google.protobuf.Duration": true, "google.protobuf.Value": true, "google.protobuf.Struct": true, "google.protobuf.ListValue": true,
+}
+
+// SkipConstrainedJSON is a MsgOpts.SkipField that leaves out fields of those types, so that every
+// generated message is representable in JSON and text.
+func SkipConstrainedJSON(fd protoreflect.FieldDescriptor) bool {
+	sub := fd.Message()
+	if fd.IsMap() {
+		sub = fd.MapValue().Message()
+	}
+	return sub != nil && ConstrainedJSON[sub.FullName()]
+}
